@@ -94,7 +94,8 @@ class ElectronicControlUnit:
         :param callback:
             The callback to be removed from the timer event list
         """
-        for event in self._timer_events:
+        # iterate over a copy: removing from the list that is being iterated skips elements
+        for event in list(self._timer_events):
             if event['callback'] == callback:
                 self._timer_events.remove( event )
         self._job_thread_wakeup()
@@ -150,7 +151,8 @@ class ElectronicControlUnit:
         :param callback:
             Function to call when message is received.
         """
-        for dic in self._subscribers:
+        # iterate over a copy: removing from the list that is being iterated skips elements
+        for dic in list(self._subscribers):
             if dic['cb'] == callback:
                 self._subscribers.remove(dic)
 
@@ -309,7 +311,11 @@ class ElectronicControlUnit:
             next_wakeup = self.j1939_dll.async_job_thread(now)
 
             # check timer events
-            for event in self._timer_events:
+            # iterate over a copy: callbacks may add or remove timers
+            for event in list(self._timer_events):
+                if event not in self._timer_events:
+                    # removed in the meantime, e.g. by a callback called earlier in this pass
+                    continue
                 if event['deadline'] > now:
                     if next_wakeup > event['deadline']:
                         next_wakeup = event['deadline']
@@ -325,8 +331,9 @@ class ElectronicControlUnit:
                         if next_wakeup > event['deadline']:
                             next_wakeup = event['deadline']
                     else:
-                        # remove from list
-                        self._timer_events.remove( event )
+                        # remove from list (the callback may already have removed it)
+                        if event in self._timer_events:
+                            self._timer_events.remove( event )
 
             time_to_sleep = next_wakeup - time.time()
             if time_to_sleep > 0:
